@@ -234,8 +234,10 @@ def normalise(facts, known):
     Bodies of such helpers that cannot be reached from outside the crate are taken out of facts.bodies (kept in
     facts.helpers); their closures stay and are reported by facts.closures_of(caller)."""
     def is_helper(b):
-        if b is None or b.is_closure or b.derived or b.impl_trait:
+        if b is None or b.is_closure or b.derived:
             return False
+        # a method of a trait impl the reference tree does not have (e.g. `impl From<Option<f64>> for NewEnum`) is a helper too
+        # wherever the call resolves to it statically
         if b.raw.get('def_kind') not in ('Fn', 'AssocFn'):
             return False
         key = ('%s::%s' % (b.crate_kind, b.path)) if b.crate_kind != 'lib' else b.path
